@@ -48,7 +48,7 @@ ROUTINES = {
 }
 QUICK = ["ed25519", "p256"]
 STRAIGHT = {("gls254", "set_mul_add_mulgen_vartime")}
-NCHUNK = 16
+NCHUNK = 48
 
 
 class Machinery(Exception):
